@@ -34,6 +34,12 @@ where zeroFields (env : Env) : Nat → Fields → Val
   | _ + 1, .nil => .nil
   | fuel + 1, .cons _ _ t rest => .cons (zeroVal env fuel t) (zeroFields env fuel rest)
 
+/-- what an absent `maybe` / `maybe^` field leaves behind: the untouched zero value (a nil pointer) -/
+def absentVal (env : Env) (fuel : Nat) (T : Ty) : Val :=
+  match T with
+  | .ptr _ _ => .none
+  | _ => zeroVal env fuel T
+
 /-- Magic.ValidateTag: a failed read yields 0 and leaves the cursor where it was. The number the decoder stores into
 the field (the tag's value) is not part of the value: the field is dumped as `#` on both sides (tlb.Transaction's
 hand decoder, for one, leaves it 0). -/
@@ -54,6 +60,19 @@ def libraryEntry (T : Ty) (s : Slice) : Outcome (Val × Slice) :=
   | .prim .any => .ok (.cell s.toCell, s)
   | _ => .err "library cell decoding is not configured properly"
 
+/-- decodeSumType + compareWithSumTag: the FIRST constructor in field order whose tag equals the next bits (a tag
+longer than what is left does not match); returns the constructor, its payload type and the tag length to skip -/
+def selectCtor : Ctors → List Bool → Outcome (String × Ty × Nat)
+  | .nil, _ => .err "can not decode sumtype"
+  | .cons name tg t rest, bits =>
+    match tg with
+    | none => .err "invalid tag"
+    | some tag =>
+      if bits.length < tag.len then selectCtor rest bits
+      else if tag.len > 64 then .err "too much bits for uint64"
+      else if tag.val = bitsToNat (bits.take tag.len) then .ok (name, t, tag.len)
+      else selectCtor rest bits
+
 mutual
 
 def decodeField (env : Env) : Nat → FieldTag → Ty → Slice → Outcome (Val × Slice)
@@ -67,16 +86,19 @@ def decodeField (env : Env) : Nat → FieldTag → Ty → Slice → Outcome (Val
     else
     match ft with
     | .bad => .err "tag format is deprecated"
-    | .plain => decode env fuel T s
+    | .plain =>
+      match T with
+      | .magic tg => decodeMagic tg s        -- tagValidator: the field's own tag
+      | _ => decode env fuel T s
     | .maybe => do
       let (ex, s) ← s.readBit
-      if !ex then pure (zeroVal env fuel T, s)
+      if !ex then pure (absentVal env fuel T, s)
       else match T with
         | .magic _ => .err "unsupported tag"
         | _ => decode env fuel T s
     | .maybeRef => do
       let (ex, s) ← s.readBit
-      if !ex then pure (zeroVal env fuel T, s)
+      if !ex then pure (absentVal env fuel T, s)
       else do
         let (c, s) ← s.nextRef
         let cs := Slice.ofCell c
@@ -124,7 +146,13 @@ def decode (env : Env) : Nat → Ty → Slice → Outcome (Val × Slice)
       let (v, s) ← decode env fuel t s
       pure (Val.some v, s)
     | .struct fs => decodeFields env fuel fs s
-    | .sum cs => decodeCtors env fuel cs s
+    | .sum cs =>
+      match selectCtor cs s.bits with
+      | .ok (name, t, len) => do
+        let (v, s) ← decode env fuel t { s with bits := s.bits.drop len }
+        pure (Val.ctor name v, s)
+      | .err e => .err e
+      | .panic p => .panic p
     | .named id =>
       match env id with
       | some t => decode env fuel t s
@@ -181,21 +209,6 @@ def decodeFields (env : Env) : Nat → Fields → Slice → Outcome (Val × Slic
     let (v, s) ← decodeField env fuel ft t s
     let (vs, s) ← decodeFields env fuel rest s
     pure (.cons v vs, s)
-
-/-- decodeSumType: first constructor in field order whose tag matches the next bits -/
-def decodeCtors (env : Env) : Nat → Ctors → Slice → Outcome (Val × Slice)
-  | 0, _, _ => .err "fuel"
-  | _ + 1, .nil, _ => .err "can not decode sumtype"
-  | fuel + 1, .cons name tg t rest, s =>
-    match tg with
-    | none => .err "invalid tag"
-    | some tag =>
-      if s.bits.length < tag.len then decodeCtors env fuel rest s
-      else if tag.len > 64 then .err "too much bits for uint64"
-      else if tag.val = bitsToNat (s.bits.take tag.len) then do
-        let (v, s) ← decode env fuel t { s with bits := s.bits.drop tag.len }
-        pure (Val.ctor name v, s)
-      else decodeCtors env fuel rest s
 
 /-- getStackListItems: the list comes out bottom-first -/
 def decodeStack (env : Env) : Nat → Ty → Nat → Slice → Outcome (List Val × Slice)
